@@ -4,6 +4,7 @@ import (
 	"fmt"
 
 	"verif/internal/ast"
+	"verif/internal/refcheck"
 )
 
 // termRef is a position in a program where a term sits, with a setter.
@@ -149,7 +150,7 @@ var MutationKinds = []string{
 	"binder-to-scope", "case-payload-to-scope", "case-payload-to-scope", "binder-to-alias", "alias-to-live", "cut-reuse-self-as-name", "drop-statement", "dup-statement", "rename-binder", "rename-use", "wait-to-drop", "insert-drop", "insert-split",
 	"extra-provider", "swap-send-args", "wrong-label", "drop-branch", "dup-branch", "extra-branch", "arity-minus", "arity-plus",
 	"wrong-callee", "self-misplaced", "ann-inequivalent", "ann-mode", "param-mode", "ret-mode", "prc-mode", "ann-equivalent",
-	"swap-statements", "cut-body-continuation", "remove-ann", "polarity", "self-arg", "shift-words", "typedef-change",
+	"swap-statements", "cut-body-continuation", "remove-ann", "polarity", "self-arg", "shift-words", "typedef-change", "toplevel-cycle",
 }
 
 // Mutate applies one single-site edit to a clone of p. ok=false when the chosen operator has
@@ -173,6 +174,56 @@ func (d D) Mutate(p *ast.Program, kind string) (*ast.Program, string, bool) {
 		return k == ast.TWait || k == ast.TDrop || k == ast.TPrint
 	}
 	switch kind {
+	case "toplevel-cycle": // a process that nobody uses is waited for by a process it (indirectly) uses
+		user := map[string]*ast.Decl{} // top-level name -> the process using it
+		var prcs []*ast.Decl
+		for _, dc := range q.Decls {
+			if dc.Kind == ast.DPrc && dc.Body != nil {
+				prcs = append(prcs, dc)
+			}
+		}
+		provOf := map[string]*ast.Decl{}
+		for _, dc := range prcs {
+			for _, n := range dc.Providers {
+				provOf[n] = dc
+			}
+		}
+		for _, dc := range prcs {
+			for _, n := range refcheck.FreeNames(dc.Body) {
+				if provOf[n] != nil && provOf[n] != dc {
+					user[n] = dc
+				}
+			}
+		}
+		type cand struct {
+			top, dep *ast.Decl
+		}
+		var cs []cand
+		for _, top := range prcs {
+			if len(top.Providers) != 1 || user[top.Providers[0]] != nil || top.Ty == nil || top.Ty.K != ast.KOne {
+				continue
+			}
+			// everything top transitively uses
+			seen := map[*ast.Decl]bool{top: true}
+			work := []*ast.Decl{top}
+			for len(work) > 0 {
+				cur := work[0]
+				work = work[1:]
+				for _, n := range refcheck.FreeNames(cur.Body) {
+					if dp := provOf[n]; dp != nil && !seen[dp] {
+						seen[dp] = true
+						work = append(work, dp)
+						cs = append(cs, cand{top, dp})
+					}
+				}
+			}
+		}
+		if len(cs) == 0 {
+			return nil, "", false
+		}
+		c := cs[d.Pick(len(cs), "site")]
+		c.dep.Body = &ast.Term{Kind: ast.TWait, X: ast.N(c.top.Providers[0]), K: c.dep.Body}
+		return q, fmt.Sprintf("prc[%s] now waits for prc[%s], which (indirectly) uses it", c.dep.Providers[0], c.top.Providers[0]), true
 	case "drop-statement": // the channel is then never consumed
 		r, ok := pick(func(r termRef) bool { return r.T.Kind == ast.TWait || r.T.Kind == ast.TDrop })
 		if !ok {
